@@ -255,10 +255,45 @@ fn run_tree(opts: &str, chunks: &str) -> String {
     format!("T={}", dump_dom(&dom))
 }
 
+/// the joint parse, printed as the `xmltb` engine prints a tree-builder result (tree-builder parse errors with
+/// adjacent repetitions collapsed: their number depends on how the tokenizer cuts a run of text)
+fn run_jtree(opts: &str, chunks: &str) -> String {
+    let chunks: Option<Vec<String>> = chunks.split('|').map(parse_string).collect();
+    let Some(chunks) = chunks else {
+        return "bad-case".into();
+    };
+    let mut p = parse_document(
+        RcDom::default(),
+        XmlParseOpts {
+            tokenizer: tok_opts(opts, None),
+            tree_builder: Default::default(),
+        },
+    );
+    for ch in chunks {
+        p.process(StrTendril::from_slice(&ch));
+    }
+    let dom = p.finish();
+    let mut codes: Vec<&str> = dom
+        .errors
+        .borrow()
+        .iter()
+        .filter_map(|e| super::xmltb::err_code(e))
+        .collect();
+    codes.dedup();
+    let mut tree = String::new();
+    super::xmltb::dump_children(&dom.document, &mut tree);
+    format!(
+        "J=err={};tree={}",
+        if codes.is_empty() { "-".to_string() } else { codes.join(",") },
+        if tree.is_empty() { "-" } else { &tree }
+    )
+}
+
 pub fn run(fields: &[&str]) -> String {
     match fields {
         ["tok", opts, state, chunks] => run_tok(opts, state, chunks),
         ["tree", opts, chunks] => run_tree(opts, chunks),
+        ["jtree", opts, chunks] => run_jtree(opts, chunks),
         _ => "bad-case".into(),
     }
 }
